@@ -2,7 +2,7 @@
 # confirm_seed.sh <PROP> <N> : independently confirm a sub-agent's seeded defect in a scratch worktree
 # (suite unchanged with the patch; demo fails with it and passes without), then store it under /verif/seeded/.
 set -u
-P=$1; N=$2; SRC=/tmp/seedout/$P; WT=/tmp/wt/confirm-$P-$N
+P=$1; N=$2; PROP=${3:-$(echo $P | cut -c1-3)}; SRC=/tmp/seedout/$P; WT=/tmp/wt/confirm-$P-$N
 export GOFLAGS=-mod=mod GOPROXY=off GOSUMDB=off GOTOOLCHAIN=local
 GO=/root/go/pkg/mod/golang.org/toolchain@v0.0.1-go1.24.4.linux-amd64/bin/go
 git -C /repo worktree remove --force $WT 2>/dev/null
@@ -29,7 +29,7 @@ echo "RESULT $P-$N: suite[$suite] demo_with_patch_rc=$with demo_without_rc=$with
 if [[ "$suite" == *"baseline_not_passing=0"* && $with -ne 0 && $without -eq 0 ]]; then
   D=/verif/seeded/$P-$N; mkdir -p $D
   cp $PATCH $D/patch.diff; cp $SRC/demo${N}_test.go $D/demo_test.go
-  python3 - "$SRC/meta$N.json" "$D/meta.json" "$P" "$dir" "$suite" <<'PY'
+  python3 - "$SRC/meta$N.json" "$D/meta.json" "$PROP" "$dir" "$suite" <<'PY'
 import json,sys
 src,dst,p,d,suite=sys.argv[1:6]
 try: m=json.load(open(src))
